@@ -95,11 +95,17 @@ def decode(board: torch.Tensor) -> game.Position:
     else:
         to_play = pieces.Color.BLACK
     i += 1
+    reserves = []
     for _ in range(2):
         assert board[i].item() in Token.RESERVES
+        stones = board[i].item() - Token.FIRST_RESERVES_VALUE
         i += 1
         assert board[i].item() in Token.CAPSTONES
+        caps = board[i].item() - Token.FIRST_CAPSTONES_VALUE
         i += 1
+        reserves.append(game.StoneCounts(stones=stones, caps=caps))
+    if to_play == pieces.Color.BLACK:
+        reserves.reverse()
 
     squares = []
     this_sq = None
@@ -137,8 +143,11 @@ def decode(board: torch.Tensor) -> game.Position:
         squares.append(this_sq)
     size = int(len(squares) ** (1 / 2))
     assert size * size == len(squares), f"Got a bad number of squares: {len(squares)}"
-    return game.Position.from_squares(
-        game.Config(size=size), squares, 2 if to_play == pieces.Color.WHITE else 3
+    return game.Position(
+        size=size,
+        stones=tuple(reserves),
+        ply=2 if to_play == pieces.Color.WHITE else 3,
+        board=squares,
     )
 
 
